@@ -604,3 +604,155 @@ func init() {
 	register("file", &family{replay: replayFile,
 		rule: "one case = (stream profile whole or cut at a byte offset, concrete syntax variant, reader function); non-trivial = cut file or more than one document"})
 }
+
+// ---------------------------------------------------------------------------
+// family "filert" (C19, writer half): lists of Maps written with the four file writers and read
+// back with the matching readers; gob and Copy per Map.
+// ---------------------------------------------------------------------------
+type filertCase struct {
+	Ms     []*tagged.TV `json:"ms"`
+	XmlErr bool         `json:"xmlerr"`
+	Xml    string       `json:"xml"`
+	XBack  []*tagged.TV `json:"xback"`
+	Json   string       `json:"json"`
+}
+type filertLine struct {
+	F  string       `json:"f"`
+	Cs []filertCase `json:"cs"`
+}
+
+func canonMaps(ms []mxj.Map) string {
+	s := make([]string, len(ms))
+	for i, m := range ms {
+		s[i] = tagged.CanonGo(m)
+	}
+	return strings.Join(s, " | ")
+}
+
+func replayFileRT(line []byte, a *Acc) {
+	var l filertLine
+	if err := json.Unmarshal(line, &l); err != nil {
+		panic(err)
+	}
+	mxj.XMLEscapeChars(true)
+	defer mxj.XMLEscapeChars(false)
+	dir, err := os.MkdirTemp("", "mxjfilert")
+	if err != nil {
+		panic(err)
+	}
+	defer os.RemoveAll(dir)
+	cases := 0
+	for ci, c := range l.Cs {
+		one := func(sig, detail string) { a.Mis(sig, detail, filertLine{F: "filert", Cs: []filertCase{c}}) }
+		ms := make(mxj.Maps, len(c.Ms))
+		orig := make([]string, len(c.Ms))
+		for i, t := range c.Ms {
+			ms[i] = t.ToMap()
+			orig[i] = t.Norm()
+		}
+		origAll := strings.Join(orig, " | ")
+		// ---- XML
+		fx := filepath.Join(dir, fmt.Sprintf("x%d", ci))
+		cases++
+		werr := ms.XmlFile(fx)
+		if c.XmlErr {
+			if werr == nil {
+				one("filert:xml:no-error", "XmlFile succeeded although an attribute entry is not a scalar")
+			}
+		} else {
+			got, _ := os.ReadFile(fx)
+			if werr != nil || string(got) != c.Xml {
+				one("filert:xml:content", fmt.Sprintf("XmlFile wrote %q (err %v), expected the concatenation %q", got, werr, c.Xml))
+			} else {
+				exp := make([]string, len(c.XBack))
+				for i, t := range c.XBack {
+					exp[i] = t.Norm()
+				}
+				expAll := strings.Join(exp, " | ")
+				back, rerr := mxj.NewMapsFromXmlFile(fx)
+				if rerr != nil || canonMaps(back) != expAll {
+					one("filert:xml:readback", fmt.Sprintf("NewMapsFromXmlFile(%q) = [%s] (err %v), expected [%s]", c.Xml, canonMaps(back), rerr, expAll))
+				}
+				raws, rerr := mxj.NewMapsFromXmlFileRaw(fx)
+				okr := rerr == nil && len(raws) == len(exp)
+				cat := ""
+				for i := 0; okr && i < len(raws); i++ {
+					okr = tagged.CanonGo(raws[i].M) == exp[i]
+					cat += string(raws[i].R)
+				}
+				if !okr || cat != c.Xml {
+					one("filert:xml:readback-raw", fmt.Sprintf("NewMapsFromXmlFileRaw(%q): %d entries (err %v), raw concatenation %q", c.Xml, len(raws), rerr, cat))
+				}
+				for _, ind := range []string{" ", "\t", "    "} {
+					fxi := fx + "i"
+					if e := ms.XmlFileIndent(fxi, "", ind); e != nil {
+						one("filert:xml:indent-error", e.Error())
+						continue
+					}
+					back, rerr := mxj.NewMapsFromXmlFile(fxi)
+					if rerr != nil || canonMaps(back) != expAll {
+						b, _ := os.ReadFile(fxi)
+						one("filert:xml:indent-readback", fmt.Sprintf("indent %q: file %q read back as [%s] (err %v), expected [%s]", ind, b, canonMaps(back), rerr, expAll))
+					}
+				}
+			}
+		}
+		// ---- JSON
+		fj := filepath.Join(dir, fmt.Sprintf("j%d", ci))
+		cases++
+		werr = ms.JsonFile(fj)
+		got, _ := os.ReadFile(fj)
+		if werr != nil || string(got) != c.Json {
+			one("filert:json:content", fmt.Sprintf("JsonFile wrote %q (err %v), expected %q", got, werr, c.Json))
+		} else {
+			back, rerr := mxj.NewMapsFromJsonFile(fj)
+			if rerr != nil || canonMaps(back) != origAll {
+				one("filert:json:readback", fmt.Sprintf("NewMapsFromJsonFile(%q) = [%s] (err %v), expected [%s]", c.Json, canonMaps(back), rerr, origAll))
+			}
+			raws, rerr := mxj.NewMapsFromJsonFileRaw(fj)
+			okr := rerr == nil && len(raws) == len(orig)
+			for i := 0; okr && i < len(raws); i++ {
+				okr = tagged.CanonGo(raws[i].M) == orig[i]
+				m2, e2 := mxj.NewMapJson(raws[i].R)
+				okr = okr && e2 == nil && tagged.CanonGo(m2) == orig[i]
+			}
+			if !okr {
+				one("filert:json:readback-raw", fmt.Sprintf("NewMapsFromJsonFileRaw(%q): %d entries (err %v)", c.Json, len(raws), rerr))
+			}
+			for _, ind := range []string{" ", "\t"} {
+				fji := fj + "i"
+				if e := ms.JsonFileIndent(fji, "", ind); e != nil {
+					one("filert:json:indent-error", e.Error())
+					continue
+				}
+				back, rerr := mxj.NewMapsFromJsonFile(fji)
+				if rerr != nil || canonMaps(back) != origAll {
+					b, _ := os.ReadFile(fji)
+					one("filert:json:indent-readback", fmt.Sprintf("indent %q: file %q read back as [%s] (err %v), expected [%s]", ind, b, canonMaps(back), rerr, origAll))
+				}
+			}
+		}
+		// ---- gob, Copy
+		for i, m := range ms {
+			cases++
+			g, gerr := m.Gob()
+			m2, derr := mxj.NewMapGob(g)
+			if gerr != nil || derr != nil || tagged.CanonGo(m2) != orig[i] {
+				one("filert:gob", fmt.Sprintf("Gob/NewMapGob of %s gave %s (%v %v)", orig[i], tagged.CanonGo(m2), gerr, derr))
+			}
+			cp, cerr := m.Copy()
+			if cerr != nil || tagged.CanonGo(cp) != orig[i] {
+				one("filert:copy", fmt.Sprintf("Copy of %s gave %s (%v)", orig[i], tagged.CanonGo(cp), cerr))
+			}
+		}
+	}
+	a.Count(cases, cases)
+	if len(l.Cs) > 0 && len(l.Cs[0].Ms) > 1 && len(l.Cs[0].Xml) > 30 {
+		a.Sample(map[string]interface{}{"maps": []string{l.Cs[0].Ms[0].Norm(), l.Cs[0].Ms[1].Norm()}, "xml_file": l.Cs[0].Xml, "json_file": l.Cs[0].Json})
+	}
+}
+
+func init() {
+	register("filert", &family{replay: replayFileRT, serial: true,
+		rule: "one case = (list of one or two Maps, XML or JSON file form incl. Raw readers and three indent strings) or (Map, gob+Copy); real temporary files; all cases non-trivial"})
+}
